@@ -38,3 +38,7 @@ Definition cm (tid : int) (comm : list N) : N * list N := (n_ tid, comm).
 Require Import UV.C15.GraphF.
 Definition mk_fcase (k : case) (func : list N) (rows : option (list grow)) : fcase :=
   {| fk_case := k; fk_func := func; fk_rows := rows |}.
+
+Require Import UV.C15.GraphText.
+Definition mk_tcase (k : case) (func : option (list N)) (lines : list (list N)) : tcase :=
+  {| tk_case := k; tk_func := func; tk_lines := lines |}.
